@@ -336,11 +336,10 @@ def record_calls(ctx: Ctx, rec: fio.Recorder, spec: str, origin: str, fg_cache: 
         fg = fg_cache[key]
         if fg is None:
             continue
-        try:
-            want = gio.tree_to_json(call.tree)
-        except NotModelled as e:
-            ctx.run.count("not_modelled:" + str(e)[:40])
+        if call.not_modelled is not None or call.tree_json is None:
+            ctx.run.count("not_modelled:" + str(call.not_modelled)[:40])
             continue
+        want = call.tree_json       # the tree as Grammar.fuzz returned it
         try:
             req = fio.expand_request(call, fg)
             ctx.queue_expand(req, want, {"origin": origin, "spec": spec})
@@ -1087,20 +1086,45 @@ def make_evolution_case(run: Run, rng, gi: int, force: Optional[str] = None):
     return text + "\n".join(cons) + ("\n" if cons else ""), kind
 
 
+class Snaps:
+    """trees judged AS THEY WERE when the real code handed them over (an individual reaching
+    Evaluator.evaluate_individual, an emitted solution, the population a run ends with): serialised at that moment,
+    distinct by structure.  A reference would show later in-place edits — e.g. `_insert_repetitions` empties the
+    parent before its fuzz call and does not restore it when that call raises (RecursionError), which truncates an
+    individual that was handed over intact and is never looked at again because the run ends with the exception."""
+
+    def __init__(self):
+        self.by_key: dict[str, tuple] = {}
+        self.not_modelled: list[str] = []
+
+    def add(self, tree) -> Optional[str]:
+        try:
+            tj = gio.tree_to_json(tree)
+            key = json.dumps(tj)
+            if key not in self.by_key:
+                self.by_key[key] = (tj, fio.atree_json(tree))
+            return key
+        except NotModelled as e:
+            self.not_modelled.append(str(e))
+            return None
+
+
 def run_evolution(spec: str, seed: int, settings: dict, generations: int, want: int, seconds: int):
-    """one bounded evolution run; returns (grammar, constraints, individuals seen, solutions, fuzz calls, error)"""
+    """one bounded evolution run; returns (grammar, constraints, snapshots of the individuals seen, snapshots of the
+    solutions, recorder, error, not-modelled notes); a snapshot is (tree json, atree json)"""
     from fandango.evolution.algorithm import Fandango
     from fandango.evolution.evaluation import Evaluator
     with limit(8):
         grammar, constraints = gio.parse_spec(spec)
-    seen: dict[int, Any] = {}
+    snaps = Snaps()
     o_eval = Evaluator.evaluate_individual
 
     def evaluate_individual(self, individual):
-        seen.setdefault(id(individual), individual)
+        snaps.add(individual)
         return o_eval(self, individual)
 
-    solutions, err = [], None
+    sol_keys: list[str] = []
+    err = None
     Evaluator.evaluate_individual = evaluate_individual
     rec = fio.Recorder(evo=True)
     try:
@@ -1110,9 +1134,11 @@ def run_evolution(spec: str, seed: int, settings: dict, generations: int, want: 
                 try:
                     fan = Fandango(grammar, constraints, random_seed=seed, **settings)
                     for s in itertools.islice(fan.generate(max_generations=generations), want):
-                        solutions.append(s)
+                        k = snaps.add(s)
+                        if k is not None:
+                            sol_keys.append(k)
                     for t in fan.population:
-                        seen.setdefault(id(t), t)
+                        snaps.add(t)
                 except Timeout:
                     err = "timeout"
                 except RecursionError:
@@ -1121,7 +1147,10 @@ def run_evolution(spec: str, seed: int, settings: dict, generations: int, want: 
                     err = type(e).__name__
     finally:
         Evaluator.evaluate_individual = o_eval
-    return grammar, constraints, list(seen.values()), solutions, rec, err
+    sk = set(sol_keys)
+    sols = [snaps.by_key[k] for k in dict.fromkeys(sol_keys)]
+    inds = [v for k, v in snaps.by_key.items() if k not in sk]
+    return grammar, constraints, inds, sols, rec, err, snaps.not_modelled
 
 
 def record_evo(ctx: Ctx, rec: fio.Recorder, spec: str) -> None:
@@ -1251,7 +1280,7 @@ def stage_evolution(ctx: Ctx, rng, n_runs: int, seconds: int, force: Optional[st
         seed = rng.getrandbits(30)
         cap0 = nodes.MAX_REPETITIONS
         try:
-            grammar, constraints, inds, sols, rec, err = run_evolution(
+            grammar, constraints, inds, sols, rec, err, notes = run_evolution(
                 spec, seed, settings, rng.choice([2, 3, 5]), 12, seconds)
         except Timeout:
             run.count("evolution:spec_timeout")
@@ -1264,15 +1293,13 @@ def stage_evolution(ctx: Ctx, rng, n_runs: int, seconds: int, force: Optional[st
         run.count("evolution:" + kind.split(":")[0])
         run.count("evolution_end:" + (err or "ok"))
         run.count("evolution_solutions:" + ("0" if not sols else "1+"))
+        for note in notes:
+            run.count("not_modelled:" + note[:40])
         try:
             gj, regexes, relaxed = fio.static_ir(grammar, constraints)
             meta = {"spec": spec, "settings": dict(settings, seed=seed, kind=kind), "relaxed": sorted(relaxed)}
-            sol_ids = {id(s) for s in sols}
-            tj_sol = [gio.tree_to_json(t) for t in sols]
-            others = [t for t in inds if id(t) not in sol_ids]
-            tj_ind = [gio.tree_to_json(t) for t in others]
-            at_sol = [fio.atree_json(t) for t in sols]
-            at_ind = [fio.atree_json(t) for t in others]
+            tj_sol, at_sol = [x[0] for x in sols], [x[1] for x in sols]
+            tj_ind, at_ind = [x[0] for x in inds], [x[1] for x in inds]
         except NotModelled as e:
             run.count("not_modelled:" + str(e)[:40])
             continue
@@ -1520,9 +1547,9 @@ def replay(path: str) -> int:
     st = rp.get("settings") or {}
     if origin.startswith("evolution") and "seed" in st:
         settings = {k: v for k, v in st.items() if k not in ("seed", "kind")}
-        _g, _c, inds, sols, _rec, err = run_evolution(spec, st["seed"], settings, 5, 12, 60)
-        tj = [gio.tree_to_json(t) for t in inds + sols]
-        at = [fio.atree_json(t) for t in inds + sols]
+        _g, _c, inds, sols, _rec, err, _notes = run_evolution(spec, st["seed"], settings, 5, 12, 60)
+        tj = [x[0] for x in inds + sols]
+        at = [x[1] for x in inds + sols]
         ctx.queue_valid(gj, regexes, tj, {"origin": origin, "spec": spec}, at)
         print(f"re-run: {len(inds)} individuals, {len(sols)} solutions, end={err or 'ok'}")
     elif origin.startswith("operator"):
